@@ -62,11 +62,10 @@ let run (c : s list) : s option =
     Some (e_outcome e_bdd (mk_conjunctive_clause (n_of_int (List.length v)) (pv_of_valuation v)))
   | A "cmp_size" :: a :: b :: _ -> Some (e_ord (cmp_size (d_bdd a) (d_bdd b)))
   | A "cmp_structural" :: a :: b :: _ -> Some (e_ord (cmp_structural (d_bdd a) (d_bdd b)))
-  (* the reference count model is an un-memoised recursion (exponential on diagrams with much sharing): beyond 40 variables
-     the model answer is withheld (TOOBIG) and the judge falls back on its independent exact counter *)
-  | A "cmp_cardinality" :: a :: b :: _ when int_of_n (nvars (d_bdd a)) > 40 || int_of_n (nvars (d_bdd b)) > 40 -> Some (A "TOOBIG")
-  | A "cmp_cardinality_strict" :: a :: b :: _ when int_of_n (nvars (d_bdd a)) > 40 || int_of_n (nvars (d_bdd b)) > 40 -> Some (A "TOOBIG")
-  | A "cmp_cardinality" :: a :: b :: _ -> Some (e_ord (cmp_cardinality_with exact_cardinality (d_bdd a) (d_bdd b)))
-  | A "cmp_cardinality_strict" :: a :: b :: _ -> Some (e_opt e_ord (cmp_cardinality_strict_with exact_cardinality (d_bdd a) (d_bdd b)))
-  | A "exact_card" :: a :: _ -> Some (e_n (exact_cardinality (d_bdd a)))
+  (* the count is the memoised exact count of Model/CountFast.v (for well-formed operands; else the reference recursion): proved
+     equal to exact_cardinality on all inputs (Proofs/CountFast.v exact_cardinality_auto_eq), cross-checked against it on small
+     operands (Ops_count.exact_card), and not exponential on diagrams with much sharing *)
+  | A "cmp_cardinality" :: a :: b :: _ -> Some (e_ord (cmp_cardinality_with Ops_count.exact_card (d_bdd a) (d_bdd b)))
+  | A "cmp_cardinality_strict" :: a :: b :: _ -> Some (e_opt e_ord (cmp_cardinality_strict_with Ops_count.exact_card (d_bdd a) (d_bdd b)))
+  | A "exact_card" :: a :: _ -> Some (e_n (Ops_count.exact_card (d_bdd a)))
   | _ -> None
